@@ -350,6 +350,12 @@ pub fn worker_main(prop: &dyn Property, args: &[String]) -> i32 {
         i += 1;
     }
     install_panic_hook();
+    // die with the orchestrator: a worker whose parent is gone would otherwise keep spinning
+    // in a hung case forever
+    // SAFETY: plain prctl call with constant arguments.
+    unsafe {
+        let _ = libc::prctl(libc::PR_SET_PDEATHSIG, libc::SIGKILL);
+    }
     let t0 = Instant::now();
     let cap = prop.case_cap_ms(tier);
     {
@@ -361,8 +367,10 @@ pub fn worker_main(prop: &dyn Property, args: &[String]) -> i32 {
                 let started = CASE_START_MS.load(Ordering::SeqCst);
                 let now = now_ms(&t0);
                 if now > started + cap && CURRENT_IDX.load(Ordering::SeqCst) == idx {
-                    println!("H {idx}");
-                    let _ = std::io::stdout().flush();
+                    // never panic here (a closed pipe must not keep a hung worker alive)
+                    let mut out = std::io::stdout();
+                    let _ = writeln!(out, "H {idx}");
+                    let _ = out.flush();
                     std::process::exit(3);
                 }
             }
@@ -626,8 +634,9 @@ pub fn orchestrate(prop: &dyn Property, tier: Tier) -> i32 {
                             sig: kind.to_string(),
                         });
                         start = idx + 1;
-                        if crashes > 50 {
-                            machinery_error = Some("too many crashes".into());
+                        if crashes > 25 {
+                            // every crash is a recorded violation; give up on the rest of this
+                            // shard (the run is reported as not exhaustive)
                             break;
                         }
                     }
